@@ -473,12 +473,14 @@ def run_admin_delivery(params, known):
         v['case'] = case
         violations.append(v)
     extra = (B.FLAG_NO_FRAGMENT, 0x20, B.FLAG_STATUS_TIME)
-    for table in ('deliver-first', 'forward-first', 'empty'):
+    for (table, form) in itertools.product(('deliver-first', 'forward-first', 'empty'), ('whole', 'two-fragments', 'two-fragments-reversed')):
         for bits in range(1 << len(extra)):
             for ts in ((T0, 1), (0, 5)):
-                count += 1
                 flags = B.FLAG_ADMIN | sum(f for (i, f) in enumerate(extra) if bits >> i & 1)
-                case = dict(table=table, flags=hex(flags), creation=list(ts))
+                if form != 'whole' and flags & B.FLAG_NO_FRAGMENT:
+                    continue
+                count += 1
+                case = dict(table=table, flags=hex(flags), creation=list(ts), arrives_as=form)
                 world = BpWorld(dict(node_id=NODE, rx_routes=TABLES[table], tx_routes=TX_ROUTES))
                 app = world.app('admin')
                 handlers = getattr(app, '_rec_type_map', None)
@@ -491,10 +493,24 @@ def run_admin_delivery(params, known):
                 if ts[0] == 0:
                     blocks.insert(0, dict(type=B.T_AGE, num=2, flags=0, crc_type=1, data=B.enc_age(10)))
                 bundle = dict(primary=dict(flags=flags, crc_type=1, dest=NODE, src='dtn://src/', report_to='dtn:none', ts=ts, lifetime=3600000), blocks=blocks)
+                if form == 'whole':
+                    arrivals = [B.encode(bundle)]
+                else:
+                    # cut in two on its way (the age block of a clockless source travels in both fragments)
+                    record = blocks[-1]['data']
+                    half = len(record) // 2
+                    arrivals = []
+                    for (lo, hi) in ((0, half), (half, len(record))):
+                        fb = [dict(b) for b in blocks[:-1]] + [dict(type=1, num=1, flags=0, crc_type=1, data=record[lo:hi])]
+                        arrivals.append(B.encode(dict(primary=dict(bundle['primary'], flags=flags | B.FLAG_IS_FRAGMENT, frag_offset=lo, total_adu=len(record)),
+                                                      blocks=fb)))
+                    if form.endswith('reversed'):
+                        arrivals.reverse()
                 for _ in (1, 2):
-                    world.receive(B.encode(bundle))
-                    world.quiesce()
-                keys.add('%s/%x/%d' % (table, flags, ts[0]))
+                    for octets in arrivals:
+                        world.receive(octets)
+                        world.quiesce()
+                keys.add('%s/%x/%d/%s' % (table, flags, ts[0], form))
                 if world.escaped or world.api_errors:
                     esc = (world.escaped or world.api_errors)[-1]
                     viol('exception-escaped', '%s: %s' % (esc[0], esc[2] if world.escaped else esc[1]), case)
